@@ -702,7 +702,8 @@ func collectFacts(dir string) (*factSet, error) {
 		"Program.readLoop", "Program.waitForReadLoop", "Program.checkResize", "Program.listenForResize", "channelHandlers.shutdown",
 		"WithFilter", "WithFPS", "detectReportFocus", "Program.handleSignals", "Program.handleCommands", "Program.handleResize",
 		"Program.initCancelReader", "standardRenderer.listen", "standardRenderer.start", "standardRenderer.handleMessages",
-		"Program.initInput", "Program.restoreInput", "Program.suspend", "standardRenderer.halt")
+		"Program.initInput", "Program.restoreInput", "Program.suspend", "standardRenderer.halt",
+		"Exec", "ExecProcess", "wrapExecCommand", "osExecCommand.SetStdin", "osExecCommand.SetStdout", "osExecCommand.SetStderr")
 	fs.signature("Program.Run")
 	fs.bufSize()
 	fs.lockDiscipline()
